@@ -234,6 +234,7 @@ type webSocket struct {
 	forceCloseC        chan error                // used by the readPump to notify a forcefully closed connection to the writePump.
 	doneC              chan struct{}             // closed when the cleanup starts: releases writers blocked on a full outQueue.
 	tlsConnectionState *tls.ConnectionState
+	remoteAddr         net.Addr // address of the peer, kept after the connection is closed
 	cfg                WebSocketConfig
 	log                logging.Logger
 	onClosed           DisconnectedHandler
@@ -250,6 +251,7 @@ func newWebSocket(id string, conn *websocket.Conn, tlsState *tls.ConnectionState
 		connection:         conn,
 		mutex:              sync.RWMutex{},
 		tlsConnectionState: tlsState,
+		remoteAddr:         conn.RemoteAddr(),
 		outQueue:           make(chan message, 2),
 		pingC:              make(chan []byte, 1),
 		closeC:             make(chan websocket.CloseError, 1),
@@ -270,7 +272,7 @@ func (w *webSocket) ID() string {
 
 // Returns the address of the remote peer.
 func (w *webSocket) RemoteAddr() net.Addr {
-	return w.connection.RemoteAddr()
+	return w.remoteAddr
 }
 
 // Returns the TLS connection state of the connection, if any.
